@@ -12,7 +12,7 @@ for mp in sorted(glob.glob(os.path.join(VERIF, "seeded", "*", "meta.json"))):
     needs = re.sub(r"\s+", " ", m.get("needs", "")).strip()
     needs = re.sub(r"^#+\s*", "", needs)
     needs = needs.replace("|", "/")[:230]
-    rows.append("| `%s` | %s | %s | %s |" % (m["name"], m["property"], "detected" if m.get("detected_by_check") else "MISSED", needs))
+    rows.append("| `%s` | %s | %s | %s |" % (m["name"], m["property"], ("detected" if m.get("detected_quick", m.get("detected_by_check")) and m.get("detected_quick") is not False else ("detected by the thorough tier only" if m.get("detected_thorough") else "MISSED")), needs))
 out = ["## 9. Seeded changes and demonstration mutations", "",
        "Changes written by independent sub-agents (they saw the property text and a scratch worktree only). Every row was "
        "re-verified by `selftest/seeded.py`: demo passes on the unchanged tree, whole pinned suite passes with the patch, demo "
